@@ -73,7 +73,7 @@ def _global_fields(rng):
     return out
 
 
-def _gen_history(rng, length, first_add_after=None, fault=0.25, lean=False):
+def _gen_history(rng, length, first_add_after=None, fault=0.25, lean=False, equal_dests=False):
     """first_add_after: force that many logs (interspersed with globals) before the first add"""
     hist = []
     st = {"serial": 0, "next_id": 0, "registered": [], "removed": [], "added": False}
@@ -109,6 +109,16 @@ def _gen_history(rng, length, first_add_after=None, fault=0.25, lean=False):
 
     def remove():
         r = rng.random()
+        if equal_dests:
+            # value-equal destinations: list.remove() takes out the first equal registration, so only the
+            # earliest registered one is removed here (then object and position agree); never-registered ids otherwise
+            if st["registered"] and r < 0.9:
+                i = st["registered"].pop(0)
+                st["removed"].append(i)
+            else:
+                i = st["next_id"] + 5
+            hist.append(["remove", i])
+            return
         if st["registered"] and r < 0.85:
             i = rng.choice(st["registered"])
             st["registered"].remove(i)
@@ -151,7 +161,12 @@ def gen_histories(rng, tier):
         n_small, n_big, big_hi, tail, n_long = 230, 6, 1100, 30, 0
     else:
         n_small, n_big, big_hi, tail, n_long = 2500, 40, 3000, 200, 60
-    small = [{"hist": _gen_history(rng, rng.randrange(1, 61))} for _ in range(n_small)]
+    small = []
+    for k in range(n_small):
+        eq = k % 4 == 3
+        small.append({"hist": _gen_history(rng, rng.randrange(1, 61), equal_dests=eq)})
+        if eq:
+            small[-1]["equal_dests"] = True
     big = []
     for k in range(n_big):
         nbuf = CAP + 1 + (k if k < 3 else rng.randrange(0, big_hi - CAP))
@@ -169,7 +184,8 @@ def gen_histories(rng, tier):
 
 
 def _interp_case(case):
-    return {"classes": [], "registry": [], "pre": [o for o in case["hist"] if o[0] != "log"], "prog": []}
+    return {"classes": [], "registry": [], "pre": [o for o in case["hist"] if o[0] != "log"], "prog": [],
+            "equal_dests": bool(case.get("equal_dests"))}
 
 
 def impl_histories(case):
@@ -360,6 +376,8 @@ def describe_histories(case):
         out.append("failing destination")
     if any(o[0] == "remove" for o in hist):
         out.append("remove")
+    if case.get("equal_dests"):
+        out.append("value-equal-destinations")
     if any(k < 19 for o in hist if o[0] == "globals" for k, _ in o[1]):
         out.append("global field named like a reserved key")
     if first_add is not None and any(o[0] == "globals" for o in hist[:first_add]) and nbuf:
